@@ -210,3 +210,29 @@ Theorem C08_former_dot_cut_witness_reads_back : exists r, place w_dot = Some r /
     [(true, [LongNames.CRoot; LongNames.CName true [46]]); (false, [LongNames.CName false [98]])].
 Proof. exact RRPlaceCases.w_dot_reads_back. Qed.
 End RRPlaceStatements.
+
+(* The entry lengths used by the models above are the `length()` static methods of rockridge.py as TRANSLATED from the
+   current source on this run (Gen/GenRR.v, regenerated by every check): a change of one of those methods changes the
+   generated definition and breaks this theorem. *)
+From PV.Gen Require GenRR.
+From PV.Model Require RREntries.
+From PV.Proofs Require RRGenProofs.
+Theorem C08_entry_lengths_are_the_source :
+  (RREntries.len_sp = GenRR.rr_sp_length /\ RREntries.len_rr = GenRR.rr_rr_length /\ RREntries.len_ce = GenRR.rr_ce_length /\
+   RREntries.len_es = GenRR.rr_es_length /\ RREntries.len_pn = GenRR.rr_pn_length /\ RREntries.len_link = GenRR.rr_cl_length /\
+   RREntries.len_link = GenRR.rr_pl_length /\ RREntries.len_re = GenRR.rr_re_length /\ RREntries.len_re = GenRR.rr_st_length) /\
+  (forall v, RREntries.len_px v = GenRR.rr_px_length (RRGenProofs.rrv_str v)) /\
+  (forall v, RREntries.len_sf v = GenRR.rr_sf_length (RRGenProofs.rrv_str v)) /\
+  (forall id des src, RREntries.len_er id des src = GenRR.rr_er_length id des src) /\
+  (forall name, RREntries.len_nm name = GenRR.rr_nm_length name) /\
+  (forall p, RREntries.len_pd p = GenRR.rr_pd_length p) /\
+  (forall name, RREntries.sl_comp_length name = GenRR.rr_sl_component_length name) /\
+  (forall names, RREntries.len_sl names =
+     fold_left (fun l n => (l + GenRR.rr_sl_component_length n)%Z) names GenRR.rr_sl_header_length) /\
+  (GenRR.rr_sl_max_component_area = 250 /\ GenRR.rr_al_max_component_area = 250 /\ GenRR.rr_sl_header_length = 5 /\
+   GenRR.rr_al_header_length = 5)%Z.
+Proof.
+  split; [exact RRGenProofs.rrgen_constants|]. split; [exact RRGenProofs.rrgen_px|]. split; [exact RRGenProofs.rrgen_sf|].
+  split; [exact RRGenProofs.rrgen_er|]. split; [exact RRGenProofs.rrgen_nm|]. split; [exact RRGenProofs.rrgen_pd|].
+  split; [exact RRGenProofs.rrgen_sl_component|]. split; [exact RRGenProofs.rrgen_sl_record|]. exact RRGenProofs.rrgen_areas.
+Qed.
